@@ -28,15 +28,21 @@ THEOREMS = [
     # the character level: the Lexer GENERATED from the current source (Gen/AlgoAscLex.lean) = the hand-written lexer model, on every text
     # (Refine/AscLex.lean), and text -> generated lexer -> generated parser -> generated walk = Asc.convert
     "C15.generated_lex_eq_model", "C15.generated_lexer_raises_iff_bad", "C15.generated_lex_noBad", "C15.generated_next_eq_model",
-    "C15.model_lex_is_iterated_step", "C15.generated_text_convert_eq_model", "C15.generated_text_convert_bad_partial",
+    "C15.model_lex_is_iterated_step", "C15.generated_text_convert_eq_model", "C15.generated_text_convert_bad_prefix",
+    # EVERY text, the lexer raising in the middle of the on-demand token pulling included (Refine/AscBad.lean)
+    "C15.generated_text_convert_eq_model_all", "C15.generated_text_rejected_iff", "C15.model_convert_bad",
+    "C15.generated_bad_point_rejected_text", "C15.generated_truncation_rejected_text",
+    "RefineAscBad.sub_ext", "RefineAscBad.top_ext", "RefineAscBad.convertWithL_ext", "RefineAscBad.convertTokens_bad",
+    "RefineAscBad.parse_refinesL", "RefineAscBad.convertPrefix_eq", "RefineAscBad.convertPrefix_eq_model",
     "RefineAscLex.read_char_mk", "RefineAscLex.while1_loop", "RefineAscLex.while2_loop", "RefineAscLex.read_word_mk",
     "RefineAscLex.read_line_mk", "RefineAscLex.lex_loop", "RefineAscLex.init_mk",
 ]
 TRUSTED = ["the character-level lexer model `Asc.lex` in Model/Asc.lean is no longer trusted: C15.generated_lex_eq_model proves it equal (token types and values, on every "
            "text) to the `Lexer` translated from the source, C15.generated_text_convert_eq_model composes it with the parser theorem; trusted there: the "
            "translator, the stream model (`read(1)` / `readline()` on the unread characters), `isNumber` = `Asc.looksFloat` for the PINNED `RE_FLOAT` prefix match, "
-           "`parseNumber` = a full match of `SwcText.floatPrefix` for CPython `float()` (design_notes/session4/asclexer.md, items 1-5); a lexer failure BEHIND the "
-           "last token the parser reads (lazy token pulling) is covered by the hand model + asc correspondence only; "
+           "`parseNumber` = a full match of `SwcText.floatPrefix` for CPython `float()` (design_notes/session4/asclexer.md, items 1-5); a lexer failure in the middle of the "
+           "on-demand token pulling (reached or not reached by the parser) is PROVED too: C15.generated_text_convert_eq_model_all holds for every text, with the "
+           "driver-side composition `AlgoRun.ascConvertPrefix` (item 5) as the reading of `from_stream` when the lexer raises; "
            "the token-level parser model (`Asc.convertTokens`: the `flag` protocol, rows created in `_parse_node` order without "
            "materialising the AST) is not trusted either: C15.generated_convert_eq_model proves it equal to the parser and the walk translated from the "
            "source on every token list; what remains trusted there is the translator and its glue (design_notes/session4/ascparser.md, items 1-6)"]
